@@ -101,3 +101,57 @@ fn c18_deform_parent_cycle_terminates() {
     kani::cover!(true);
     core::mem::forget((r, pbd));
 }
+
+// =================================================================================================
+// C16: PreBoneDeformer::from_existing on a generated 217-byte file: 2 body ids, 2 links, deformer 0
+// with one bone (odd count: 2 bytes of padding before the matrices), deformer 1 with two bones.
+// Counts, data offsets and bone names are concrete; body ids, link fields and all 36 matrix words
+// are symbolic.
+// =================================================================================================
+const PB_TOTAL: usize = 217;
+#[kani::proof]
+#[kani::unwind(16)]
+fn c16_deformer_from_existing() {
+    let mut b: [u8; PB_TOTAL] = kani::any();
+    let put32 = |b: &mut [u8; PB_TOTAL], o: usize, v: i32| { let x = v.to_le_bytes(); b[o] = x[0]; b[o + 1] = x[1]; b[o + 2] = x[2]; b[o + 3] = x[3]; };
+    let put16 = |b: &mut [u8; PB_TOTAL], o: usize, v: u16| { let x = v.to_le_bytes(); b[o] = x[0]; b[o + 1] = x[1]; };
+    let le16 = |b: &[u8; PB_TOTAL], o: usize| u16::from_le_bytes([b[o], b[o + 1]]);
+    let le32 = |b: &[u8; PB_TOTAL], o: usize| u32::from_le_bytes([b[o], b[o + 1], b[o + 2], b[o + 3]]);
+    put32(&mut b, 0, 2);                       // two items, two links
+    put32(&mut b, 4 + 4, 44);                  // item 0: body id, link index (symbolic), data offset 44, 4 reserved
+    put32(&mut b, 16 + 4, 105);                // item 1: data offset 105 (unaligned on purpose)
+    // links at 28..44 (symbolic)
+    // deformer 0 at 44: 1 bone, name offset 56, 2 bytes padding, 12 floats, name "j_ab" at 44 + 56 = 100
+    put32(&mut b, 44, 1); put16(&mut b, 48, 56);
+    let n0 = b"j_ab\0";
+    let mut i = 0;
+    while i < 5 { b[100 + i] = n0[i]; i += 1; }
+    // deformer 1 at 105: 2 bones, name offsets 104 / 108, no padding, 24 floats, names at 209 / 213
+    put32(&mut b, 105, 2); put16(&mut b, 109, 104); put16(&mut b, 111, 108);
+    let n1 = b"n_a\0n_b\0";
+    i = 0;
+    while i < 8 { b[209 + i] = n1[i]; i += 1; }
+    let pbd = PreBoneDeformer::from_existing(&b).unwrap();
+    let h = &pbd.header;
+    assert_eq!((h.count, h.items.len(), h.links.len()), (2, 2, 2));
+    assert_eq!((h.items[0].body_id, h.items[0].link_index), (le16(&b, 4), le16(&b, 6) as i16));
+    assert_eq!((h.items[1].body_id, h.items[1].link_index), (le16(&b, 16), le16(&b, 18) as i16));
+    let k: usize = kani::any();
+    kani::assume(k < 2);
+    let lo = 28 + 8 * k;
+    assert_eq!((h.links[k].parent_index, h.links[k].first_child_index, h.links[k].next_sibling_index, h.links[k].deformer_index),
+               (le16(&b, lo) as i16, le16(&b, lo + 2) as i16, le16(&b, lo + 4) as i16, le16(&b, lo + 6)));
+    let d0 = &h.items[0].deformer;
+    assert_eq!((d0.bone_count, d0.bone_names.len(), d0.transform.len()), (1, 1, 1));
+    assert!(d0.bone_names[0].as_bytes() == b"j_ab");
+    let j: usize = kani::any();
+    kani::assume(j < 12);
+    assert_eq!(d0.transform[0][j].to_bits(), le32(&b, 52 + 4 * j));          // 44 + 4 + 2 + 2 (padding)
+    let d1 = &h.items[1].deformer;
+    assert_eq!((d1.bone_count, d1.bone_names.len(), d1.transform.len()), (2, 2, 2));
+    assert!(d1.bone_names[0].as_bytes() == b"n_a" && d1.bone_names[1].as_bytes() == b"n_b");
+    assert_eq!(d1.transform[0][j].to_bits(), le32(&b, 113 + 4 * j));         // 105 + 4 + 4, no padding
+    assert_eq!(d1.transform[1][j].to_bits(), le32(&b, 161 + 4 * j));
+    kani::cover!(true);
+    core::mem::forget(pbd);
+}
